@@ -64,6 +64,9 @@ func C06(p *load.Prog, r *report.Report) {
 			}, func(res *absint.PathResult) {
 				want := sp(res, want0)
 				got, why := m.scalarVal(res.It, res.It.InputRoots()[0])
+				if got != nil {
+					got = sp(res, got)
+				}
 				r.Check(why == "" && got.Equal(want), "C06.arith", construct, p.Pos(fn.Pos()), "receiver = "+want0.String(), fmt.Sprintf("receiver is %v (%s), expected %s", got, why, want))
 				if mode == "distinct" {
 					tv, w := m.scalarVal(res.It, res.It.InputRoots()[1])
@@ -98,6 +101,9 @@ func C06(p *load.Prog, r *report.Report) {
 			return []absint.Value{ptr(m.newScalar(it, "s", s))}
 		}, func(res *absint.PathResult) {
 			got, why := m.scalarVal(res.It, res.It.InputRoots()[0])
+			if got != nil {
+				got = sp(res, got)
+			}
 			detail := "receiver = " + op.want.String()
 			if op.meth == "Invert" {
 				detail = "receiver = s^(n-2) = inv0(s): exponent computed from the chain's own code"
@@ -137,12 +143,20 @@ func C06(p *load.Prog, r *report.Report) {
 	if fn := anchorFunc(p, p.Scalar, "Invert"); fn != nil {
 		alpha := absint.FieldSym(FN, "α")
 		limbT := fn.Params[0].Type().(*types.Pointer).Elem()
+		_, inByPtr := fn.Params[1].Type().(*types.Pointer)
 		runEach(p, r, "C06.chain", "scalar.Invert", fn, func(it *absint.Interp) []absint.Value {
 			o := it.NewObject(limbT, "out", true)
 			it.SetMont(FN, o.Root, alpha)
+			if inByPtr {
+				// the source is passed by pointer: the aliasing call Invert(&s, &s) of the wrapper
+				return []absint.Value{ptr(o), ptr(o)}
+			}
 			return []absint.Value{ptr(o), it.LoadAgg(o.Root)}
 		}, func(res *absint.PathResult) {
 			got, why := res.It.ReadMont(FN, res.It.InputRoots()[0])
+			if got != nil {
+				got = sp(res, got)
+			}
 			r.Check(why == "" && got.Equal(sp(res, alpha.Pow(FN.M2))), "C06.chain", "scalar.Invert", p.Pos(fn.Pos()), "α ↦ α^(n-2), exponent computed from the chain's own code", fmt.Sprintf("the scalar inversion chain computes %v, not α^(n-2)", got))
 		})
 	} else {
@@ -203,6 +217,13 @@ func c06Pow(p *load.Prog, r *report.Report, m *elemModel, s, t *absint.Poly) {
 			r.Check(got.Equal(s), "C06.pow", construct, pos, "s^1 = s", fmt.Sprintf("s^1 gives %s", got))
 		default:
 			want := absint.EmbTerm(FN, absint.ModExp(cs, ct, nT))
+			// paths that fix the base (fast paths for s = 0 and s = 1): 0^t = 0 for t != 0, 1^t = 1
+			got, want = it.DeepApplyPoly(got), it.DeepApplyPoly(want)
+			if sz, dsz := known(it, absint.ISZ(s)); dsz && sz && dz && !tz {
+				want = pInt(FN, 0)
+			} else if s1, ds1 := known(it, absint.ISZ(s.Sub(pInt(FN, 1)))); ds1 && s1 {
+				want = pInt(FN, 1)
+			}
 			ok := got.Equal(want)
 			detail := fmt.Sprintf("receiver is %s; expected (Canon s)^(Canon t) mod n through math/big.Exp", got)
 			for _, e := range eventsOf(res, "modexp") {
